@@ -143,6 +143,26 @@ func c09Requests(p *Program, t *T) []c09Req {
 		}
 		qs = append(qs, na)
 	}
+	// HEAD for the first GET-only route (served through the GET route) and, with method-not-allowed
+	// handling, an unrouted method for the very same path: whatever the HEAD request left behind in
+	// the router must not show in the allowed set of the other
+	for _, rs := range p.Routes {
+		if rs.Method != "GET" {
+			continue
+		}
+		path := rs.RequestPath(t.R)
+		qs = append(qs, c09Req{Kind: "head_get", Method: "HEAD", Path: path,
+			Chain: append(append(append([]*MW{}, p.Globals...), rs.Chain...), rs.Main)})
+		if p.NotAllowed {
+			na := c09Req{Kind: "not_allowed", Method: "TRACE", Path: path, Chain: append(append([]*MW{}, p.Globals...), p.NotAllowH...)}
+			if p.NotAllowH == nil {
+				na.Terminal = "405"
+				na.Allow = rs.Method
+			}
+			qs = append(qs, na)
+		}
+		break
+	}
 	return qs
 }
 
